@@ -13,7 +13,12 @@ condition:
   lexer's registers can produce;
 * the VM's fixed arrays: an out-of-range index is always the recovered error;
 * `Inspect` terminates on every heap, cyclic ones included; `Equals` does not (the finding),
-  and does on every heap without cycles.
+  and does on every heap without cycles;
+* the two loops of `parseSwitch` that depend on `nextToken` end on EVERY token stream, error
+  recorded or not (`caseLoop_terminates`, `switchLoop_terminates` — unguarded since the repair
+  of `C03-switch-error-loop`; the pre-fix loops and their divergence are kept as
+  `preFixCaseLoop` / `preFixSwitchLoop`, `C03_fixed_caseLoop_diverged`,
+  `C03_fixed_switchLoop_diverged`).
 
 The full statements that the unchanged code violates are kept as `def C03_full_… : Prop`
 with a proved counterexample, a decidable guard and a `_partial` theorem.  The parser and
@@ -427,51 +432,208 @@ example : ranked 0 selfList = false := by decide
 example : equalsImpl selfList (.ref 0) (.ref 0) = .overflow := by decide
 example : equalsImpl [.list [.int 1], .list [.int 1]] (.ref 0) (.ref 1) = .t := by decide
 
-/-! ## The case-list loop of parseSwitch (finding C03-switch-error-loop)
+/-! ## The loops of parseSwitch (finding C03-switch-error-loop, repaired)
 
-`Parser.nextToken` returns without advancing once `p.err` is set.  Loops that test only the
-current/peek token therefore never end after an error.  Modelled: the comma loop of a case
-list; the outer `for !p.curTokenIs(RBRACE)` loop of parseSwitch fails the same way
-(`switch 1 {⏎case case:⏎}`) and is covered by the harness only. -/
+`Parser.nextToken` returns without advancing once `p.err` is set.  A loop that tests only the
+current/peek token therefore never ends after an error.  Two loops of `parseSwitch` did that
+until the repair `fix: stop parsing a switch statement once a parse error is recorded`: the
+comma loop of a case list (`switch 5 {⏎case go 0, 10:⏎ 1⏎}`) and the outer loop over the
+cases (`switch 1 {⏎case case:⏎}`).  Both now look at the result of `nextToken`. -/
 
 /-- `parseExpression` never un-records an error, leaves an erroring parser where it is, and
     never puts tokens back -/
 def WellBehaved (pe : PSt → PSt) : Prop :=
   ∀ s, (s.err = true → pe s = s) ∧ (pe s).toks.length ≤ s.toks.length
 
-/-- FULL statement (false): the loop over `case a, b, c:` always ends. -/
-def C03_full_caseLoop : Prop :=
-  ∀ (pe : PSt → PSt) (s : PSt), WellBehaved pe → ∃ f, caseLoop pe f s ≠ none
+/-- **`caseLoop_terminates`**: the comma loop of a case list ends on EVERY token stream, with
+    or without a recorded error, whatever `parseExpression` does to the error flag, as long
+    as it does not put tokens back: at most one round per remaining token. -/
+theorem caseLoop_terminates (pe : PSt → PSt)
+    (hpe : ∀ s, (pe s).toks.length ≤ s.toks.length) (f : Nat) :
+    ∀ s : PSt, s.toks.length < f → caseLoop pe f s ≠ none := by
+  induction f with
+  | zero => intro s h; omega
+  | succ f ih =>
+    intro s hl
+    simp only [caseLoop]
+    split
+    · rename_i hc
+      split
+      · simp
+      · split
+        · simp
+        · rename_i he1 he2
+          apply ih
+          have hlen : s.next.next.toks.length < s.toks.length := by
+            cases hs : s.toks with
+            | nil => rw [hs] at hc; simp at hc
+            | cons t ts =>
+              have e1 : s.err = false := by
+                cases h : s.err with
+                | false => rfl
+                | true => simp [PSt.next, h] at he1
+              simp [PSt.next, e1, hs]
+              omega
+          have := hpe s.next.next
+          omega
+    · simp
 
-/-- With an error recorded and a comma as the next token the loop never ends, whatever the
-    fuel: `nextToken` does not advance, the comma stays, one nil is appended per round. -/
-theorem caseLoop_diverges (pe : PSt → PSt) (hpe : WellBehaved pe) (f : Nat) :
-    ∀ s : PSt, s.err = true → s.toks.head? = some Tk.comma → caseLoop pe f s = none := by
+/-- … and when an error is recorded and a comma follows — the situation in which the loop
+    used to spin — it is over after ONE test of `nextToken`'s result, in the same state,
+    error still recorded (parseSwitch returns nil, Parse reports `p.err`). -/
+theorem caseLoop_error_stops (pe : PSt → PSt) (f : Nat) (s : PSt) (he : s.err = true) :
+    caseLoop pe (f + 1) s = some s := by
+  have hn : s.next = s := by simp [PSt.next, he]
+  simp only [caseLoop, hn, he, if_true]
+  split <;> rfl
+
+/-- the loop never loses a recorded error: whatever state it ends in, if `parseExpression`
+    keeps errors, an error recorded before the loop (the first expression of the list
+    failed) is still recorded after it -/
+theorem caseLoop_keeps_error (pe : PSt → PSt) (f : Nat) (s r : PSt) (he : s.err = true)
+    (h : caseLoop pe f s = some r) : r.err = true := by
+  cases f with
+  | zero => simp [caseLoop] at h
+  | succ f => rw [caseLoop_error_stops pe f s he] at h; cases h; exact he
+
+/-- The statement that was false before the repair (then `def C03_full_caseLoop : Prop` with
+    the counterexample `caseLoop_diverges`), now a theorem: the loop over `case a, b, c:`
+    always ends. -/
+theorem C03_full_caseLoop :
+    ∀ (pe : PSt → PSt) (s : PSt), WellBehaved pe → ∃ f, caseLoop pe f s ≠ none :=
+  fun pe s hpe => ⟨s.toks.length + 1,
+    caseLoop_terminates pe (fun t => (hpe t).2) _ s (Nat.lt_succ_self _)⟩
+
+/-- `switch 5 {⏎case go 0, 10:⏎ 1⏎}` after the failed `go 0`: an error and `, 10 :` -/
+example : caseLoop id 1 ⟨[.comma, .other, .colon], true⟩ = some ⟨[.comma, .other, .colon], true⟩ := by decide
+example : caseLoop id 10 ⟨[.comma, .other, .comma, .other, .other], false⟩ = some ⟨[.other], false⟩ := by decide
+/-- the second expression of three fails (`pe` records an error at the second call) -/
+example : caseLoop (fun s => if s.toks.length = 3 then { s with err := true } else s) 10
+    ⟨[.comma, .other, .comma, .other, .comma, .other, .colon], false⟩
+    = some ⟨[.comma, .other, .colon], true⟩ := by decide
+
+/-- **The repair changes nothing for a case list whose expressions parse.**  As long as
+    `parseExpression` records no error, the repaired loop computes what the old one computed,
+    for every token stream and every fuel. -/
+theorem caseLoop_unchanged_without_error (pe : PSt → PSt)
+    (hpe : ∀ s, s.err = false → (pe s).err = false) (f : Nat) :
+    ∀ s : PSt, s.err = false → caseLoop pe f s = preFixCaseLoop pe f s := by
+  induction f with
+  | zero => intro s _; rfl
+  | succ f ih =>
+    intro s he
+    have hn1 : s.next = { s with toks := s.toks.tail } := by simp [PSt.next, he]
+    have hne : s.next.err = false := by rw [hn1]; exact he
+    have hn2 : s.next.next.err = false := by simp [PSt.next, he]
+    simp only [caseLoop, preFixCaseLoop, hne, hn2]
+    split
+    · exact ih _ (hpe _ hn2)
+    · rfl
+
+/-! ### The outer loop over the cases -/
+
+/-- HEAD and BLOCK never put tokens back -/
+def NoPutBack (g : PSt → Part) : Prop :=
+  ∀ s s', g s = .goes s' → s'.toks.length ≤ s.toks.length
+
+/-- **`switchLoop_terminates`**: the outer loop of parseSwitch ends on EVERY token stream,
+    error recorded or not, for every HEAD and BLOCK that do not put tokens back: every round
+    that does not return has passed a `nextToken` that advanced. -/
+theorem switchLoop_terminates (head block : PSt → Part)
+    (hh : NoPutBack head) (hb : NoPutBack block) (f : Nat) :
+    ∀ s : PSt, s.toks.length < f → switchLoop head block f s ≠ none := by
+  induction f with
+  | zero => intro s h; omega
+  | succ f ih =>
+    intro s hl
+    simp only [switchLoop]
+    split
+    · simp
+    · split
+      · simp
+      · rename_i hne
+        split
+        · simp
+        · rename_i s1 h1
+          split
+          · simp
+          · rename_i he
+            split
+            · simp
+            · rename_i s2 h2
+              apply ih
+              have l1 := hh s s1 h1
+              have l2 := hb s1.next s2 h2
+              have e1 : s1.err = false := by
+                cases h : s1.err with
+                | false => rfl
+                | true => simp [PSt.next, h] at he
+              have l3 : s1.next.toks.length < s.toks.length := by
+                have hpos : 0 < s.toks.length := by
+                  cases hs : s.toks with
+                  | nil => exact absurd hs hne
+                  | cons t ts => simp
+                simp [PSt.next, e1]
+                omega
+              omega
+
+/-- a round whose HEAD leaves an error recorded is the last one: the loop is over right
+    after HEAD, in HEAD's state (parseSwitch returns nil, Parse reports `p.err`) -/
+theorem switchLoop_error_stops (head block : PSt → Part) (f : Nat) (s s1 : PSt)
+    (h0 : s.toks.head? ≠ some Tk.rbrace) (h1 : s.toks ≠ [])
+    (hh : head s = .goes s1) (he : s1.err = true) :
+    switchLoop head block (f + 1) s = some s1 := by
+  have hn : s1.next = s1 := by simp [PSt.next, he]
+  simp only [switchLoop, if_neg h0, if_neg h1, hh, hn, he, if_true]
+
+/-- `switch 1 {⏎case case:⏎}` from the first `case` on -/
+def caseCaseToks : List Tk := [.kwCase, .kwCase, .colon, .other, .rbrace]
+
+/-- the repaired loop ends in its first round, error recorded -/
+example : switchLoop caseCaseHead emptyBlock 1 ⟨caseCaseToks, false⟩
+    = some ⟨[.kwCase, .colon, .other, .rbrace], true⟩ := by decide
+/-- a switch with two empty cases and no error: `case x: case x: }` (three rounds of fuel) -/
+example : switchLoop (fun s => .goes { s with toks := s.toks.drop 2 }) emptyBlock 3
+    ⟨[.kwCase, .other, .colon, .kwCase, .other, .colon, .rbrace], false⟩
+    = some ⟨[.rbrace], false⟩ := by decide
+
+/-! ### Historical: the two loops before the repair -/
+
+/-- the full statement about the PRE-FIX comma loop (false): it always ends. -/
+def C03_preFix_full_caseLoop : Prop :=
+  ∀ (pe : PSt → PSt) (s : PSt), WellBehaved pe → ∃ f, preFixCaseLoop pe f s ≠ none
+
+/-- HISTORICAL: with an error recorded and a comma as the next token the pre-fix loop never
+    ended, whatever the fuel: `nextToken` does not advance, the comma stays, one nil is
+    appended per round. -/
+theorem preFixCaseLoop_diverges (pe : PSt → PSt) (hpe : WellBehaved pe) (f : Nat) :
+    ∀ s : PSt, s.err = true → s.toks.head? = some Tk.comma → preFixCaseLoop pe f s = none := by
   induction f with
   | zero => intro s _ _; rfl
   | succ f ih =>
     intro s he hc
     have hn : s.next = s := by simp [PSt.next, he]
-    simp only [caseLoop, hc, if_true, hn, (hpe s).1 he]
+    simp only [preFixCaseLoop, hc, if_true, hn, (hpe s).1 he]
     exact ih s he hc
 
-/-- COUNTEREXAMPLE (`switch 5 { case go 0, 10: … }`: the first expression fails, a comma follows) -/
-theorem C03_counterexample_caseLoop : ¬ C03_full_caseLoop := by
+/-- HISTORICAL (finding `C03-switch-error-loop`, repaired; `switch 5 { case go 0, 10: … }`:
+    the first expression fails, a comma follows): the pre-fix comma loop did not end. -/
+theorem C03_fixed_caseLoop_diverged : ¬ C03_preFix_full_caseLoop := by
   intro h
   have wb : WellBehaved id := fun s => ⟨fun _ => rfl, Nat.le_refl _⟩
   obtain ⟨f, hf⟩ := h id ⟨[Tk.comma], true⟩ wb
-  exact hf (caseLoop_diverges id wb f _ rfl rfl)
+  exact hf (preFixCaseLoop_diverges id wb f _ rfl rfl)
 
-/-- PARTIAL: as long as no expression of the list fails to parse, the loop ends after at
-    most one round per remaining token — for every token stream. -/
-theorem C03_partial_caseLoop (pe : PSt → PSt)
+/-- HISTORICAL: what could be proved of the pre-fix comma loop — as long as no expression of
+    the list failed to parse it ended after at most one round per remaining token. -/
+theorem C03_preFix_partial_caseLoop (pe : PSt → PSt)
     (hpe : ∀ s, s.err = false → (pe s).err = false ∧ (pe s).toks.length ≤ s.toks.length) (f : Nat) :
-    ∀ s : PSt, s.err = false → s.toks.length < f → caseLoop pe f s ≠ none := by
+    ∀ s : PSt, s.err = false → s.toks.length < f → preFixCaseLoop pe f s ≠ none := by
   induction f with
   | zero => intro s _ h; omega
   | succ f ih =>
     intro s he hl
-    simp only [caseLoop]
+    simp only [preFixCaseLoop]
     split
     · rename_i hc
       have hn1 : s.next = { s with toks := s.toks.tail } := by simp [PSt.next, he]
@@ -488,7 +650,38 @@ theorem C03_partial_caseLoop (pe : PSt → PSt)
       exact ih _ this.1 (by omega)
     · simp
 
-example : caseLoop id 10 ⟨[.comma, .other, .comma, .other, .other], false⟩ = some ⟨[.other], false⟩ := by decide
+/-- the state in which the pre-fix outer loop spun on `switch 1 {⏎case case:⏎}`: the error
+    recorded, the current token still the second `case`, `:` behind it -/
+def caseCaseStuck : PSt := ⟨[.kwCase, .colon, .other, .rbrace], true⟩
+
+theorem preFixSwitchLoop_stuck (f : Nat) :
+    preFixSwitchLoop caseCaseHead emptyBlock f caseCaseStuck = none := by
+  induction f with
+  | zero => rfl
+  | succ f ih =>
+    have h1 : caseCaseHead caseCaseStuck = .goes caseCaseStuck := rfl
+    have h2 : caseCaseStuck.next = caseCaseStuck := rfl
+    have h3 : emptyBlock caseCaseStuck = .goes caseCaseStuck := rfl
+    have h4 : caseCaseStuck.toks.head? ≠ some Tk.rbrace := by decide
+    have h5 : caseCaseStuck.toks ≠ [] := by decide
+    simp only [preFixSwitchLoop, if_neg h4, if_neg h5, h1, h2, h3]
+    exact ih
+
+/-- HISTORICAL (finding `C03-switch-error-loop`, second form): on `switch 1 {⏎case case:⏎}`
+    the pre-fix outer loop never ended, whatever the fuel — `expectPeek(COLON)` succeeds on
+    the unmoved `:`, the unmoved `case` is taken for an empty case and appended for ever. -/
+theorem C03_fixed_switchLoop_diverged (f : Nat) :
+    preFixSwitchLoop caseCaseHead emptyBlock f ⟨caseCaseToks, false⟩ = none := by
+  cases f with
+  | zero => rfl
+  | succ f =>
+    have h1 : caseCaseHead ⟨caseCaseToks, false⟩ = .goes caseCaseStuck := rfl
+    have h2 : caseCaseStuck.next = caseCaseStuck := rfl
+    have h3 : emptyBlock caseCaseStuck = .goes caseCaseStuck := rfl
+    have h4 : (⟨caseCaseToks, false⟩ : PSt).toks.head? ≠ some Tk.rbrace := by decide
+    have h5 : (⟨caseCaseToks, false⟩ : PSt).toks ≠ [] := by decide
+    simp only [preFixSwitchLoop, if_neg h4, if_neg h5, h1, h2, h3]
+    exact preFixSwitchLoop_stuck f
 
 /-! ## nil children of the AST (guard of the parser findings; executable, not a theorem
 about parser.go) -/
